@@ -472,6 +472,9 @@ func (vc *VC) typeFacts(term string, t types.Type, alloc string) []string {
 		}
 	case *types.Interface:
 		out = append(out, "(>= (itag "+term+") 0)")
+		if alloc != "" {
+			out = append(out, "(<= (iref "+term+") "+alloc+")")
+		}
 		_ = u
 	}
 	return out
